@@ -281,9 +281,14 @@ func (sc *collection) doBuild(ctx context.Context) (Provider, error) {
 	default:
 	}
 
+	// The root scope's initializers may depend on singletons, which do not
+	// exist yet: hold them back until the singletons have been created.
 	var err error
 	rootCtx := context.Background()
+	initializers := p.voidReturnScopedDescriptors
+	p.voidReturnScopedDescriptors = nil
 	p.rootScope, err = newScope(p, nil, rootCtx, nil)
+	p.voidReturnScopedDescriptors = initializers
 	if err != nil {
 		return nil, &BuildError{
 			Phase:   "scope-creation",
@@ -308,6 +313,24 @@ func (sc *collection) doBuild(ctx context.Context) (Provider, error) {
 			Phase:   "singleton-creation",
 			Details: "failed to initialize singletons",
 			Cause:   err,
+		}
+	}
+
+	// Phase 7: Run the scoped initializers for the root scope
+	for _, descriptor := range initializers {
+		if _, err := p.rootScope.createInstance(descriptor); err != nil {
+			// Clean up the provider that is not handed out
+			_ = p.Close()
+
+			return nil, &BuildError{
+				Phase:   "scope-creation",
+				Details: "failed to create root scope",
+				Cause: &ResolutionError{
+					ServiceType: descriptor.Type,
+					ServiceKey:  descriptor.Key,
+					Cause:       fmt.Errorf("failed to initialize scoped service: %w", err),
+				},
+			}
 		}
 	}
 
